@@ -380,4 +380,6 @@ def finalize(agg):
               'oracle:dirichlet-row', 'oracle:neumann-row', 'oracle:nd-differentiation-is-tensor-product', 'oracle:nd-transform-is-tensor-product', 'oracle:transform-roundtrip'):
         if c.get(k, 0) == 0:
             out.append(f'monitor {k} never evaluated')
+    if c.get('oracle:nd-operator-is-tensor-product', 0) == 0:
+        out.append('axis-parameterised N-D operators never compared')
     return out
